@@ -217,6 +217,32 @@ def check_helpers(rep):
     return problems, n_paths
 
 
+def helper_witnesses(rep):
+    """native witnesses of the helper contract: duplicated single-valued members are client errors, absent ones are None"""
+    from vlib import replay
+    cases = [("dup-opt-query", {"method": "GET", "uri": "/bkt?list-type=2&prefix=a&prefix=b", "headers": []}, 400, None),
+             ("dup-req-query", {"method": "GET", "uri": "/bkt?analytics&id=a&id=b", "headers": []}, 400, None),
+             ("dup-opt-header", {"method": "GET", "uri": "/bkt/key", "headers": [["x-amz-request-payer", "requester"], ["x-amz-request-payer", "requester"]]}, 400, None),
+             ("dup-timestamp-header", {"method": "GET", "uri": "/bkt/key", "headers": [["if-modified-since", "Tue, 29 Apr 2014 18:30:38 GMT"], ["if-modified-since", "Tue, 29 Apr 2014 18:30:39 GMT"]]}, 400, None),
+             ("dup-timestamp-query", {"method": "GET", "uri": "/bkt/key?response-expires=2014-04-29T18%3A30%3A38Z&response-expires=2014-04-29T18%3A30%3A39Z", "headers": []}, 400, None),
+             ("missing-req-query", {"method": "GET", "uri": "/bkt/key?uploadId", "headers": []}, None, None),
+             ("single-opt-query", {"method": "GET", "uri": "/bkt?list-type=2&prefix=a", "headers": []}, 200, 'prefix: "a"'),
+             ("absent-opt-query", {"method": "GET", "uri": "/bkt?list-type=2", "headers": []}, 200, None),
+             ("invalid-int-query", {"method": "GET", "uri": "/bkt?list-type=2&max-keys=abc", "headers": []}, 400, None)]
+    outs = replay.run_scenarios([{"config": {}, "request": c[1]} for c in cases])
+    rep.traces_validated += len(cases)
+    bad = []
+    for (name, rq, st, probe), o in zip(cases, outs):
+        be = [e for e in o.get("events", []) if e["ev"].startswith("s3.")]
+        if st == 400 and (be or o.get("status") != 400):
+            bad.append((name, "expected a client error, got status %s and backend %s" % (o.get("status"), [e["ev"] for e in be])))
+        if st == 200 and (not be or (probe and probe not in be[0].get("input", ""))):
+            bad.append((name, "expected the backend to receive %s, got status %s %s" % (probe, o.get("status"), be[0].get("input", "")[:120] if be else "")))
+        if st == 200 and name == "absent-opt-query" and be and "prefix:" in be[0].get("input", ""):
+            bad.append((name, "an absent member arrives as present: %s" % be[0].get("input", "")[:160]))
+    return bad
+
+
 def check_full_body(rep):
     """leaf: ops::extract_full_body — a buffered body whose length differs from Content-Length is refused"""
     prog = rsx.Program()
@@ -284,9 +310,13 @@ def run(rep, tier):
     rep.states += n
     if not pr:
         rep.obligation("http/de.rs helpers: absent -> None/missing, one -> parsed value, duplicated -> error (never merged)", "rsx+z3", "holds", time.time() - t1)
+    hw = helper_witnesses(rep)
     for key, what in pr:
-        res = rep.violation(key, what, rep.save_cex("helper_" + re.sub(r"[^A-Za-z0-9]+", "_", key), {"problem": what}), confirmed=False)
+        res = rep.violation(key, what, rep.save_cex("helper_" + re.sub(r"[^A-Za-z0-9]+", "_", key), {"problem": what, "native": hw}), confirmed=bool(hw))
         rep.obligation(key, "rsx+z3", res, 0)
+    if hw and not pr:
+        res = rep.violation("helper-witness:%s" % hw[0][0], "real build: %s" % (hw[0],), rep.save_cex("helper_witness", hw), confirmed=True)
+        rep.obligation("helper witnesses", "replayer", res, 0)
     t1 = time.time()
     pr, n = check_full_body(rep)
     rep.states += n
